@@ -41,7 +41,7 @@ pub const G: u8 = 2;
 pub const G2: u8 = 3;
 pub const X: u8 = 4;
 /// bank denominations; the last one contains a '/' itself (token-factory / path style) and its
-/// first segment is another denomination of the list
+/// first segment is another denomination of the list; "UCOSM" differs from "ucosm" in letter case only
 /// reference value for "no governance"
 pub const NOBODY: u8 = 255;
 /// UpdateAdmin targets that are not addresses: the empty string and garbage
@@ -57,7 +57,7 @@ pub fn admin_string(to: u8) -> String {
 pub fn gov_name(g: u8) -> String {
     ACTORS.get(g as usize).map(|s| s.to_string()).unwrap_or_else(|| "<nobody>".into())
 }
-pub const NATIVES: [&str; 4] = ["ucosm", "ustake", "uusd", "uusd/vault-7"];
+pub const NATIVES: [&str; 5] = ["ucosm", "ustake", "uusd", "uusd/vault-7", "UCOSM"];
 
 pub fn ics() -> String {
     addr_cached("ics20")
@@ -1895,6 +1895,37 @@ impl Model for Ics20Model {
                 driver::normalise_outbox(&mut w);
                 post = self.observe(&w, Some((&s.w, pre)));
                 ok = out.ok();
+                // C12: handling a packet never aborts — a timeout / error ack for a send that the channel
+                // balance still covers, of a native coin or of a cw20 that the reference says is listed or
+                // covered by a default, has to be processed (one-directional: nothing is demanded when the
+                // balance was already redeemed away or the token is neither listed nor under a default)
+                if p.c12 && !ok && matches!(kind, None | Some(AckKind::Error)) {
+                    if let Some(b) = &body {
+                        let covered = match b.denom.strip_prefix("cw20:") {
+                            None => true,
+                            Some(addr) => match (0..cfg.tokens).find(|t| tok_addr(*t) == addr) {
+                                Some(t) => s.r.allow.contains_key(&t) || s.r.default.is_some(),
+                                None => false,
+                            },
+                        };
+                        if covered && b.amount.u128() <= pre.chan_bal(ch, &b.denom) {
+                            v.push(Violation::new(
+                                "C12.handling_a_packet_never_aborts",
+                                format!(
+                                    "{} for a send of {} {} on {} (channel balance {}, allow list {:?}, default {:?}) aborted: {}",
+                                    if kind.is_none() { "ibc_packet_timeout" } else { "ibc_packet_ack(error)" },
+                                    b.amount,
+                                    name_denom(&b.denom),
+                                    local_chan(ch),
+                                    pre.chan_bal(ch, &b.denom),
+                                    s.r.allow,
+                                    s.r.default,
+                                    out.err()
+                                ),
+                            ));
+                        }
+                    }
+                }
                 if p.c18 && matches!(kind, None | Some(AckKind::Error)) {
                     if let Some(b) = &body {
                         self.check_redeemable(&s.r, pre, ch, &b.denom, b.amount.u128(), "refund (error ack / timeout)", &out, &mut v);
